@@ -307,21 +307,16 @@ class Gen(object):
       if self.chance(8):
         kw["qnoise_factor"] = 0.5
     spec = {"q": "quantized_bits", "kw": kw}
-    if not c14 and self.take_lossy():
-      opt = self.pick(["scale_axis", "use_ste", "po2_exp", "vars"]
-                      if alpha == "auto_po2" else
-                      ["scale_axis", "use_ste", "vars"])
-      if opt == "scale_axis":
+    # options get_config() drops AND that change inference values (use_ste,
+    # var_name / use_variables do not at qnoise_factor = 1: left to C09)
+    if not c14 and role == "weight" and self.take_lossy():
+      if alpha == "auto_po2" and self.b():
+        spec["lossy"] = {"min_po2_exponent": -1, "max_po2_exponent": 1}
+      else:
         spec["lossy"] = {"scale_axis": 0}
         if not isinstance(alpha, str):
           kw["alpha"] = "auto"
           kw.pop("keep_negative", None)
-      elif opt == "use_ste":
-        spec["lossy"] = {"use_ste": False}
-      elif opt == "po2_exp":
-        spec["lossy"] = {"min_po2_exponent": -1, "max_po2_exponent": 1}
-      else:
-        spec["lossy"] = {"use_variables": True, "var_name": "qv%d" % self.n}
     return spec
 
   def q_linear(self, role):
@@ -333,7 +328,7 @@ class Gen(object):
     if self.chance(5):
       kw["keep_negative"] = False
     spec = {"q": "quantized_linear", "kw": kw}
-    if self.take_lossy():
+    if role == "weight" and self.take_lossy():
       spec["lossy"] = {"scale_axis": 0}
       kw["alpha"] = "auto"
     return spec
@@ -349,10 +344,7 @@ class Gen(object):
       kw["log2_rounding"] = self.pick(["floor", "rnd"])
     if not c14 and self.chance(6):
       kw["use_stochastic_rounding"] = True
-    spec = {"q": "quantized_po2", "kw": kw}
-    if not c14 and self.take_lossy():
-      spec["lossy"] = {"use_ste": False}
-    return spec
+    return {"q": "quantized_po2", "kw": kw}
 
   def q_relu_po2(self, role):
     c14 = self.profile == "c14"
@@ -430,17 +422,7 @@ class Gen(object):
       kw["relu_upper_bound"] = self.pick([1.0, 2.0, 6.0])
     if self.chance(8):
       kw["qnoise_factor"] = 0.5
-    spec = {"q": "quantized_relu", "kw": kw}
-    if self.take_lossy():
-      opt = self.pick(["clip", "use_ste", "vars"])
-      if opt == "clip":
-        spec["lossy"] = {"is_quantized_clip": False}
-        kw.pop("use_sigmoid", None)
-      elif opt == "use_ste":
-        spec["lossy"] = {"use_ste": False}
-      else:
-        spec["lossy"] = {"use_variables": True, "var_name": "rv%d" % self.n}
-    return spec
+    return {"q": "quantized_relu", "kw": kw}
 
   def q_ulaw(self, role):
     bits = self.i(2, 8)
